@@ -63,7 +63,7 @@ PRS(toks, p, left, single, negated) ==
               THEN LET rest == PBE(toks, right.p, FALSE, negated) IN
                    IF IsErr(rest) THEN Err
                    ELSE [t |-> [k |-> OpOf("||", negated), l |-> grouped, r |-> rest.t], p |-> rest.p]
-              ELSE Err
+              ELSE [t |-> grouped, p |-> right.p]        \* not an operator: left to the caller
     ELSE IF At(toks, p) = "||"
     THEN LET right == PBE(toks, p, FALSE, negated) IN
          IF IsErr(right) THEN Err
